@@ -18,6 +18,26 @@ def load_known():
     return json.load(open(p)).get('findings', [])
 
 
+def u_assumptions(results):
+    """assumptions of the route U units that took part in this verdict"""
+    us = [r for r in results if r.get('route') == 'U']
+    if not us:
+        return []
+    out = ['route U: the representation invariant (a conjunction of universally quantified clauses) is ASSUMED at an explicit, hand-written instance list per harness and ASSERTED at arbitrary ghost instances; assuming fewer instances than "for all" is sound',
+           'route U: use counts and ut_map/ut_set sizes stay below 2^64-1 (no wrap-around of size()+1 / count+1)',
+           'route U: z3 4.8.12 (cbmc --z3) and CBMC\'s array-theory encoding of __CPROVER_constant_infinity_uint arrays are sound']
+    if any(r['container'] == 'rr_cache' for r in us):
+        out.append('route U rr_cache do_prune/insert: "every slot of a full cache is in use" (pigeonhole on the injective open list) is assumed at the drawn slot; discharged by route B at bounded capacity')
+    rep = sorted(set(x for r in us for x in r.get('replaced', [])))
+    for x in rep:
+        out.append('route U assumed contract of a repository function: calls %s (goto-instrument --replace-calls); the contract (contracts/<container>.spec: wf, frame, all and only the entries with deadline <= now leave, count) is enforced on the function itself only in route B, at bounded sizes' % x.replace(':', ' -> '))
+    for f in sorted(glob.glob(os.path.join(engine.VERIF, 'cstl_u', '*.h')) + glob.glob(os.path.join(engine.VERIF, 'cstl_ud', '*.h'))):
+        for i, line in enumerate(open(f), 1):
+            if 'CSTL_ASSUME(' in line and '#define' not in line:
+                out.append('%s:%d: %s' % (os.path.relpath(f, engine.VERIF), i, line.strip()[:160]))
+    return out
+
+
 def scan_assumptions():
     out = []
     for f in sorted(glob.glob(os.path.join(engine.VERIF, 'cstl', '*.h')) + [os.path.join(engine.VERIF, 'lib', 'engine.py')]):
@@ -93,7 +113,7 @@ def decide(prop, tier, seed, gdir, units, results, notes, wall):
                   cosim_undefined_behaviour=[dict(container=u['container'], how=u['how']) for u in cosd.get('ub', [])],
                   samples=[dict(id=o['id'], status=o['status'], kind=o['kind'], expr=o.get('expr', o['desc'])[:200]) for o in (refuted[:5] + [x for x in obls if x['kind'] == 'postcondition'][:12])],
                   undecided=undec),
-              assumptions=scan_assumptions() + ['bounded stand-in: capacity <= %d in these obligations' % max([u.maxcap for u in units if u.maxcap] or [0])],
+              assumptions=scan_assumptions() + ['bounded stand-in: capacity <= %d in these obligations' % max([u.maxcap for u in units if u.maxcap] or [0])] + u_assumptions(results),
               wall_s=round(wall, 1), violations=len(viol))
     os.makedirs(os.path.join(engine.VERIF, 'evidence'), exist_ok=True)
     json.dump(ev, open(os.path.join(engine.VERIF, 'evidence', prop + '.json'), 'w'), indent=1)
